@@ -11,6 +11,7 @@ From Coq Require Import ZArith List Bool.
 Require Import NS.theories.Generated NS.theories.Bump NS.theories.GenWiring NS.theories.Scratch.
 Require Import NS.proofs.BumpProofs NS.proofs.ScratchProofs.
 Require Import NS.theories.Utf8 NS.theories.CliInput NS.proofs.CliInputProofs.
+Require Import NS.theories.ReadLine NS.proofs.RunStdinProofs.
 Import ListNotations.
 Open Scope Z_scope.
 
@@ -231,6 +232,39 @@ Theorem C14_stdin_redirect_equals_file :
 Proof. exact stdin_redirect_equals_file_lemma. Qed.
 Print Assumptions C14_stdin_redirect_equals_file.
 
+(* All three input modes hand run_source — and run_source hands the lexer — exactly the text the
+   library pipeline is given for the same bytes (or refuse it as not UTF-8 alike): nothing strips,
+   trims, slices or replaces anything between the read and Lexer::new.  The five generated flags
+   (cli_{file,eval,stdin}_text_passthrough, cli_/wasm_run_source_text_passthrough) are re-read from
+   cmd.rs and wasm/src/lib.rs on every check; with any of them false this does not prove. *)
+Theorem C14_input_modes_agree :
+  forall blocks, let c := concat blocks in
+  file_mode c = library_text c /\ eval_mode c = library_text c /\ stdin_mode blocks = library_text c.
+Proof. exact input_modes_agree_lemma. Qed.
+Print Assumptions C14_input_modes_agree.
+
+(* Runs that read standard input.  Besides the scratch arenas the crate has one more piece of
+   mutable process-global state, the bytes read_line took from standard input past the line it
+   returned (src/sys/unix.rs PENDING; the translator lists the globals, see the Example below);
+   `init` does not reset it and must not: it is input not yet consumed.  With C17's model of
+   read_line: of two runs in one process calling read_line k1 and k2 times, the second gets
+   exactly what a fresh process gets whose standard input is the rest of the text after the k1
+   lines — however the input was cut into reads in either case — and the first run gets what it
+   gets alone. *)
+Theorem C14_later_run_reads_the_remainder :
+  forall text sched sched' k1 k2,
+  option_map (fun r => skipn k1 (map fst r)) (run text sched (k1 + k2)) =
+  option_map (map fst) (run (remainder k1 text) sched' k2).
+Proof. exact later_run_reads_the_remainder_lemma. Qed.
+Print Assumptions C14_later_run_reads_the_remainder.
+
+Theorem C14_earlier_run_unaffected :
+  forall text sched sched' k1 k2,
+  option_map (fun r => firstn k1 (map fst r)) (run text sched (k1 + k2)) =
+  option_map (map fst) (run text sched' k1).
+Proof. exact earlier_run_unaffected_lemma. Qed.
+Print Assumptions C14_earlier_run_unaffected.
+
 (* ------------------------------------------------------------------ *)
 (* Non-vacuity *)
 
@@ -252,6 +286,18 @@ Example cli_run_source_shape :
   cli_plan_passthrough = true /\ cli_unguarded_returns = 0%nat /\
   wasm_plan_passthrough = true /\ wasm_unguarded_returns = 0%nat.
 Proof. repeat split; reflexivity. Qed.
+
+(* the only mutable process-global state of the crate (outside verification hooks, the windows
+   back end and the self-update tool) is what the two models account for *)
+Example process_globals_accounted_for : process_globals_are_scratch_and_pending = true.
+Proof. reflexivity. Qed.
+
+(* "first\nsecond" read by a run that calls read_line twice, then a probe run: the probe sees
+   the empty rest *)
+Example probe_after_reader_sees_nothing :
+  remainder 2 [102; 105; 10; 115; 101] = [] /\
+  option_map (map fst) (run [102; 105; 10; 115; 101] [5] 3) = Some [[102; 105]; [115; 101]; []].
+Proof. vm_compute. split; reflexivity. Qed.
 
 (* validating block by block is NOT the same reader: "é" cut between two reads *)
 Example blockwise_reader_refuted :
